@@ -18,7 +18,9 @@ SEARCH_CAP = 600
 RULE = ('three streams over the 13 table files, points3d.txt, the 3 feature descriptor files and the pairs file: '
         '(written) a generated dataset is saved by the real kapture_to_dir and each written file is handed, byte for byte, to '
         'the specification-level parser - also files written AFTER the objects were saved once and edited in memory through the '
-        'public API (rescale, pose / record edits), judged against the content in memory at the second save; (layout) a table is rendered with free layout choices per line - blanks (space, tab, '
+        'public API (rescale, pose / record edits), judged against the content in memory at the second save; LARGE tables of '
+        '999 / 1000 / 1001 / 2001 rows for sensors, trajectories, records_camera, records_wifi, observations (whole file through the '
+        'independent reader, a 12-line window around row 1000 through the specification-level parser in Coq); (layout) a table is rendered with free layout choices per line - blanks (space, tab, '
         'VT, FF, US) around every field, comment and blank lines anywhere after the version line, row permutation, \\n or '
         '\\r\\n, leading zeros and "+" on integers, alternative spellings of floats, duplicate keys, optional id filters - and '
         'loaded by the real *_from_file reader (incl. nested rigs in any row order with the sensor-id filter, and points3d.txt '
@@ -287,6 +289,49 @@ def _malformed_case(rng, d, part):
     return {'kind': 'malformed', 'part': part, 'text': text, 'ids': None, 'kp': None, 'spec': None, 'mutation': mut}
 
 
+def _large_dataset(part, n):
+    one, zero = cc.hx(1.0), cc.hx(0.0)
+    d = {p: None for p in cc.ALL_PARTS}
+    d['sensors'] = [['c', None, 'camera', ['UNKNOWN_CAMERA', '640', '480']], ['w', '', 'wifi', []]]
+    if part == 'sensors':
+        d['sensors'] = [['s%d' % i, 'n', 'lidar', []] for i in range(n)]
+    elif part == 'trajectories':
+        d['trajectories'] = [[t, 'c', [one, zero, zero, zero], [zero, cc.hx(float(t)), zero]] for t in range(n)]
+    elif part == 'records_camera':
+        d['records_camera'] = [[t, 'c', 'i/%d.jpg' % t] for t in range(n)]
+    elif part == 'records_wifi':
+        d['records_wifi'] = [[t, 'w', 'b', 2400, cc.hx(-50.0), 's', 0, 0] for t in range(n)]
+    elif part == 'observations':
+        d['records_camera'] = [[0, 'c', 'i.jpg']]
+        d['keypoints'] = [['k', 'n', 'float32', 2, ['i.jpg']]]
+        d['points3d'] = [3, []]
+        d['observations'] = [[i, 'k', [['i.jpg', i]]] for i in range(n)]
+    return d
+
+
+def _slice_of(part, text, lo, hi, expected_rows):
+    """version line + data lines lo..hi-1 of a written file, and the expected rows that carry the keys of those lines"""
+    lines = text.split('\n')
+    data = [ln for ln in lines[1:] if ln and not ln.startswith('#')]
+    window = data[lo:hi]
+    n = cc.KEYLEN[part]
+    tys = cc.col_types(part, n)[:n]
+    by_key = {}
+    for r in expected_rows:
+        by_key.setdefault(tuple(r[:n]), r)
+    rows, seen = [], set()
+    for ln in window:
+        fs = [f.strip() for f in ln.split(',')][:n]
+        try:
+            key = tuple(int(f) if t == 'i' else f for f, t in zip(fs, tys))
+        except ValueError:
+            continue
+        if key in by_key and key not in seen:
+            seen.add(key)
+            rows.append(by_key[key])
+    return '\n'.join([cc.VERSION_LINE] + window) + '\n', rows
+
+
 def gen_cases(rng, tier):
     cases = []
     n_data = 40 if tier == 'quick' else 400
@@ -304,6 +349,20 @@ def gen_cases(rng, tier):
             text = eol.join([cc.VERSION_LINE] + lines) + eol
             cases.append({'kind': 'layout', 'part': 'points3d', 'text': text, 'ids': None, 'kp': None,
                           'spec': {'width': w, 'rows': cc.jrows(rows)}, 'expect': cc.jrows(rows), 'width': w})
+    # LARGE tables: the written file must be valid whatever the number of rows (block-wise writers); the whole file goes
+    # through the independent reader, a window of lines around row 1000 goes to the specification-level parser in Coq
+    for nrows in (999, 1000, 1001, 2001):
+        for part in ('sensors', 'trajectories', 'records_camera', 'records_wifi', 'observations'):
+            lo = max(0, min(nrows, 1006) - 12)
+            cases.append({'kind': 'written', 'part': part, 'data': _large_dataset(part, nrows), 'slice': [lo, lo + 12]})
+    # load HISTORIES in one process: a conformant 1.1 directory B is loaded, a directory stamped with another format
+    # version is loaded (or refused) elsewhere, B is loaded again: every load of B must give the content of its files
+    for stamp in ('1.0', '1.0', '0.9', '1.2'):
+        b = cc.gen_dataset(rng, present={'sensors', 'records_camera', 'keypoints', 'descriptors', 'points3d', 'observations',
+                                         'trajectories'}, size=3)
+        if not b['points3d'][1]:
+            b['points3d'] = [b['points3d'][0], [[cc.hx(cc.gen_float(rng)) for _ in range(b['points3d'][0])]]]
+        cases.append({'kind': 'loadhist', 'part': 'points3d', 'data': b, 'other': cc.gen_dataset(rng, size=2), 'stamp': stamp})
     for i in range(n_data):
         if i < 2:
             d = cc.gen_dataset(rng, present=set(cc.ALL_PARTS), size=3 + i)
@@ -358,9 +417,60 @@ def gen_cases(rng, tier):
     return cases
 
 
+def _run_loadhist(case, ctx):
+    import warnings
+    import kapture.io.csv as kcsv
+    tmp = ctx['tmp']
+    tag = kv.case_hash(case['data'])[:8]
+    root_b, root_a = os.path.join(tmp, 'lhB' + tag), os.path.join(tmp, 'lhA' + tag)
+    for r in (root_b, root_a):
+        shutil.rmtree(r, ignore_errors=True)
+    out = {'kind': 'loadhist', 'exc': None, 'loads': [], 'text': None, 'other_exc': None}
+
+    def load_b():
+        try:
+            with warnings.catch_warnings():
+                warnings.simplefilter('ignore')
+                out['loads'].append({'exc': None, 'loaded': cc.extract(kcsv.kapture_from_dir(root_b))})
+        except BaseException as e:
+            if isinstance(e, (KeyboardInterrupt, SystemExit)):
+                raise
+            out['loads'].append({'exc': f'{type(e).__name__}: {e}'[:120], 'loaded': None})
+    try:
+        os.makedirs(root_b)
+        kcsv.kapture_to_dir(root_b, cc.build_kapture(case['data']))
+        cc.write_data_files(case['data'], root_b)
+        out['text'] = cc.read_text_files(root_b).get(cc.part_paths()['points3d'])
+        load_b()
+        os.makedirs(root_a)
+        kcsv.kapture_to_dir(root_a, cc.build_kapture(case['other']))
+        for dp, _, files in os.walk(root_a):
+            for fn in files:
+                if fn.endswith('.txt'):
+                    fp = os.path.join(dp, fn)
+                    with open(fp, encoding='utf-8', newline='') as f:
+                        t = f.read()
+                    with open(fp, 'w', encoding='utf-8', newline='') as f:
+                        f.write(t.replace('# kapture format: 1.1', '# kapture format: ' + case['stamp'], 1))
+        try:
+            with warnings.catch_warnings():
+                warnings.simplefilter('ignore')
+                kcsv.kapture_from_dir(root_a)
+        except Exception as e:
+            out['other_exc'] = f'{type(e).__name__}'
+        load_b()
+    except Exception as e:
+        out['exc'] = f'{type(e).__name__}: {e}'[:160]
+    for r in (root_b, root_a):
+        shutil.rmtree(r, ignore_errors=True)
+    return out
+
+
 def run_impl(case, ctx):
     import kapture.io.csv as kcsv
     part = case['part']
+    if case['kind'] == 'loadhist':
+        return _run_loadhist(case, ctx)
     if case['kind'] == 'written':
         d = case['data']
         root = os.path.join(ctx['tmp'], 'w')
@@ -391,6 +501,13 @@ def run_impl(case, ctx):
                 out['texts'][row[0]] = files.get(rel)
         else:
             out['texts'][''] = files.get(cc.part_paths()[part])
+        if case.get('slice') and out['texts'].get('') is not None:
+            w, rows = _expected_written(d, part)
+            stext, srows = _slice_of(part, out['texts'][''], case['slice'][0], case['slice'][1], rows)
+            r = cc.run_file_reader(part, stext, None, None, ctx['tmp'])
+            out['slice'] = {'text': stext, 'rows': cc.jrows(srows), 'read_exc': r['exc'],
+                            'read': cc.jrows(r['rows']) if r['rows'] is not None else None}
+            return out
         for key, text in out['texts'].items():
             if text is not None:
                 r = cc.run_file_reader(part, text, None, None, ctx['tmp'])
@@ -434,6 +551,18 @@ def oracle(case, obs):
                 if ('X, Y, Z' not in second) or (('R, G, B' in second) != (w == 6)):
                     return 'points3d: the column comment does not announce the number of columns written'
         return None
+    if case['kind'] == 'loadhist':
+        if obs['exc']:
+            return 'history could not be set up: ' + obs['exc'].split(':')[0]
+        want = cc.canon_plain(case['data'])
+        for i, ld in enumerate(obs['loads']):
+            when = 'first load' if i == 0 else f'load after a {case["stamp"]}-stamped directory was loaded in the same process'
+            if ld['exc']:
+                return f'{when}: a conformant 1.1 directory was rejected ({ld["exc"].split(":")[0]})'
+            diff = cc.first_diff(want, ld['loaded'])
+            if diff:
+                return f'{when}: a conformant 1.1 directory loads to other content than its files hold ({diff})'
+        return None
     if case['kind'] == 'layout':
         if obs.get('type_error'):
             return f'{part}: ' + obs['exc'][:80]
@@ -451,6 +580,19 @@ def oracle(case, obs):
 
 def encode(case, obs):
     part = case['part']
+    if case['kind'] == 'loadhist':
+        if obs['exc'] or obs['text'] is None:
+            raise RuntimeError('history could not be set up: ' + str(obs['exc']))
+        w, rows = _expected_written(case['data'], 'points3d')
+        last = obs['loads'][-1]['loaded'] if obs['loads'] else None
+        p3 = last['points3d'] if last else None
+        c = {'part': 'points3d', 'text': obs['text'], 'ids': None, 'kp': None, 'spec': {'width': w, 'rows': cc.jrows(rows)}}
+        o = {'rows': cc.jrows([[cc.fx(v) for v in r] for r in p3[1]]), 'width': p3[0]} if p3 else {'rows': None}
+        return cc.encode_file_case(c, o)
+    if case['kind'] == 'written' and obs.get('slice'):
+        sl = obs['slice']
+        c = {'part': part, 'text': sl['text'], 'ids': None, 'kp': None, 'spec': {'width': 0, 'rows': sl['rows']}}
+        return cc.encode_file_case(c, {'rows': sl['read'], 'width': 0})
     if case['kind'] == 'written':
         if obs['save_exc']:
             raise RuntimeError('implementation could not save: ' + obs['save_exc'])
@@ -464,20 +606,29 @@ def encode(case, obs):
 
 
 def nontrivial(case, obs):
+    if case['kind'] == 'loadhist':
+        return True
     if case['kind'] == 'written':
         return any(t and t.count('\n') > 2 for t in obs.get('texts', {}).values())
     return case['text'].count('\n') > 2
 
 
 def classify(case, obs):
+    if case['kind'] == 'loadhist':
+        return f'loadhist/{case["stamp"]}/other-{obs.get("other_exc") or "loaded"}'
     if case['kind'] == 'written':
-        return f'written/{case["part"]}' + ('/after-edit' if case.get('mutations') is not None else '')
+        n = len(case['data'][case['part']] or []) if case['part'] != 'points3d' else 0
+        return (f'written/{case["part"]}' + ('/after-edit' if case.get('mutations') is not None else '') +
+                (f'/rows={n}' if case.get('slice') else ''))
     if case['kind'] == 'layout':
         return f'layout/{case["part"]}/{"filtered" if case.get("ids") is not None or case.get("kp") is not None else "all"}'
     return f'malformed/{case["part"]}/{case.get("mutation")}/{"raises" if obs["exc"] else "value"}'
 
 
 def describe(case, obs):
+    if case['kind'] == 'loadhist':
+        return {'kind': 'loadhist', 'stamp': case['stamp'], 'other': obs.get('other_exc') or 'loaded',
+                'loads': [ld['exc'] or 'ok' for ld in obs['loads']]}
     if case['kind'] == 'written':
         t = next(iter(obs.get('texts', {}).values()), None)
         return {'kind': 'written', 'part': case['part'], 'file_head': (t or '')[:300]}
@@ -486,6 +637,8 @@ def describe(case, obs):
 
 
 def shrink(case):
+    if case['kind'] == 'loadhist' or case.get('slice'):
+        return
     if case['kind'] != 'written':
         lines = case['text'].split('\n')
         for i in range(2, len(lines)):
